@@ -456,5 +456,51 @@ def r18_6(ctx):
     return r
 
 
+def r18_7(ctx):
+    """commit: 'the first matching RTP commits the latch when no probation runs; a probation that names a winner
+    commits it'. Both decisions end in `rtp_latched.store(true)` whatever the address comparison says - the packet's
+    source may well equal the signalled address (no NAT), and the latch must still be set, or the next packet from
+    anywhere else moves the destination. So: from the 'no probation state' edge, and from the 'winner is Some' edge,
+    every path to the delivery part of receive() passes a store(true) of the latch."""
+    r = RuleResult("R18.7", "K4", "an accepted packet with no probation pending, and a probation that found its winner, always commit the latch")
+    b = ctx.body(RECEIVE)
+    r.scope.append(RECEIVE)
+    stores = [x[0] for x in core.atomic_sites(b, "rtp_latched", "store") if mir.int_value(x[2][1]) == 1]
+    exits = [bi for bi, t, p in b.calls() if p and p.endswith("::read") and t["a"] and mir.has_field(b.term_operand(t["a"][0]), "rtp_receiver")]
+    r.need("rtp_latched.store(true) sites", len(stores), 2)
+    r.need("delivery part of receive()", len(exits), 1)
+    starts = {}
+    for sb in range(len(b.blocks)):
+        if sb in b.cleanup or b.blocks[sb]["t"]["k"] != "switch":
+            continue
+        term, outs = b.switch_info(sb)
+        if term[0] != "discr":
+            continue
+        if mir.has(term[1], lambda x: x[0] == "call" and x[1].endswith("::lock") and mir.has_field(x, "probation")) and \
+                not mir.has(term[1], lambda x: x[0] == "variant"):
+            for tgt, _, m in outs:
+                if m == "None":
+                    starts.setdefault("no probation pending", []).append((sb, tgt))
+        if term[1][0] == "var" and term[1][1] == "winner":
+            for tgt, _, m in outs:
+                if m == "Some":
+                    starts.setdefault("probation winner found", []).append((sb, tgt))
+    for what in ("no probation pending", "probation winner found"):
+        if what not in starts:
+            raise core.CheckerError("R18.7: cannot find the '%s' edge in receive()" % what)
+        for sb, tgt in starts[what]:
+            q = None
+            for e in exits:
+                q = q or b.path_to([tgt], e, cut_blocks=set(stores), cut_edges=b.back_edges())
+            if q is None:
+                r.ok({"edge": "%s (%s)" % (what, b.where(sb)), "then": "rtp_latched.store(true) on every path"})
+            else:
+                r.violate(RECEIVE, "commit:%s" % what.split()[0], b.where(sb),
+                          "with %s the packet can be accepted without the latch being set (e.g. when its source equals the "
+                          "current destination): the next packet from another address then moves the destination" % what,
+                          core.describe_path(b, [sb] + q))
+    return r
+
+
 def run(ctx):
-    return [r18_1(ctx), r18_2(ctx), r18_3(ctx), r18_4(ctx), r18_5(ctx), r18_6(ctx)]
+    return [r18_1(ctx), r18_2(ctx), r18_3(ctx), r18_4(ctx), r18_5(ctx), r18_6(ctx), r18_7(ctx)]
